@@ -2,6 +2,7 @@ import KitProofs.Lemmas.Broadcaster
 import KitProofs.Lemmas.BroadcasterProgress
 import KitProofs.Lemmas.BroadcasterOrder
 import KitProofs.Lemmas.BroadcasterAccept
+import KitProofs.Lemmas.BroadcasterWg
 /-!
 C11 — events/broadcaster.  Property theorems about the LTS `Kit.Broadcaster` (`KitModel/Broadcaster.lean`).
 `Variant.fixed` models `Close` as repaired (CAS + close(closeCh) before taking the lock);
@@ -667,3 +668,138 @@ theorem close_blocked_witness :
       simp [fwdTake, fwdExitCtx, fwdExitClose, fwdCloseExit, fwdRemove, hu, hpc, hca, hcc, he, inLoop]
 
 end Kit.Broadcaster
+
+/-! ### Per-channel steps of the variadic `Subscribe`, explicit WaitGroup counter
+
+`KitModel/BroadcasterWg.lean`: `Subscribe(ctx, ch₁ … chₙ)` as `subLock`, n × `subChan`, `subUnlock`
+with the CAS of `Close` allowed between any two of them; `wg` is a counter, `closeReturn` needs
+`wg = 0`.  These theorems justify the two abstractions of the LTS above (atomic prefix registration,
+WaitGroup = "all forwarders done"). -/
+namespace Kit.Broadcaster.Wg
+
+/-- `wg_counts_forwarders`: in every reachable state the WaitGroup counter is exactly the number
+of forwarders that were started and have not finished — `wg.Add(1)` is done for a channel iff its
+forwarder is started, `wg.Done()` iff one finishes.  (So "`wg.Wait()` returns" = "every forwarder
+is done", which is how `Kit.Broadcaster.closeReturn` is written.) -/
+theorem wg_counts_forwarders {s : State} (hr : Reach .perChannel s) :
+    s.wg = s.inLoop + s.wantLock := (inv_reach hr).wgCount
+
+/-- `subscribe_steps_register_prefix`: one per-channel step either registers the channel (counter,
+forwarder and registration move together; possible only while `closed` is false and nothing of this
+call has been dropped yet) or drops it (`closed` is true; nothing moves).  Hence the registered
+channels of a call are a prefix of its arguments. -/
+theorem subscribe_steps_register_prefix {s s' : State} (hr : Reach .perChannel s)
+    (hs : step .perChannel s .subChan = some s') :
+    (s.closed = false ∧ s.skipped = 0 ∧ s'.reg = s.reg + 1 ∧ s'.skipped = s.skipped ∧
+      s'.wg = s.wg + 1 ∧ s'.inLoop = s.inLoop + 1) ∨
+    (s.closed = true ∧ s'.reg = s.reg ∧ s'.skipped = s.skipped + 1 ∧ s'.wg = s.wg ∧
+      s'.inLoop = s.inLoop) := by
+  have hi := inv_reach hr
+  simp only [step, subChan] at hs
+  split at hs
+  · next r hl =>
+    have ⟨_, c2, _⟩ := hi.call (r + 1) hl
+    split at hs
+    · next hc => simp at hs; subst hs; exact Or.inr ⟨hc, rfl, rfl, rfl, rfl⟩
+    · next hc =>
+      simp at hs; subst hs
+      refine Or.inl ⟨by simpa using hc, ?_, rfl, rfl, rfl, rfl⟩
+      cases hsk : s.skipped with
+      | zero => rfl
+      | succ k => exact absurd (c2 (by omega)) hc
+  · simp at hs
+
+/-- `subscribe_call_contract`: when the call releases the lock it has processed all its channels;
+it registered none if the broadcaster was closed when it got the lock, all if the broadcaster is
+still open, and fewer than all only if the broadcaster is closed now — exactly the guards of the
+atomic step `Kit.Broadcaster.subAcquire k j` with `j = reg`. -/
+theorem subscribe_call_contract {s s' : State} (hr : Reach .perChannel s)
+    (hs : step .perChannel s .subUnlock = some s') :
+    s.reg + s.skipped = s.callN ∧ (s.closedAtLock = true → s.reg = 0) ∧
+    (s.reg < s.callN → s.closed = true) ∧ (s.closed = false → s.reg = s.callN) := by
+  have hi := inv_reach hr
+  simp only [step, subUnlock] at hs
+  split at hs
+  · next hl =>
+    have ⟨c1, c2, c3⟩ := hi.call 0 hl
+    refine ⟨by omega, c3, fun h => c2 (by omega), ?_⟩
+    intro hc
+    cases hsk : s.skipped with
+    | zero => omega
+    | succ k => have := c2 (by omega); simp [hc] at this
+  · simp at hs
+
+/-- `wg_close_can_complete`: a pending `Close` can always reach its return by internal steps alone,
+wherever its CAS fell among the per-channel steps of a running `Subscribe`, also while a blocked
+`Broadcast` holds the lock. -/
+theorem wg_close_can_complete {s : State} (hr : Reach .perChannel s) (hp : closePending s) :
+    ∃ s', IPath .perChannel s s' ∧ (step .perChannel s' .closeReturn).isSome = true := by
+  generalize hm : mu s = m
+  induction m using Nat.strongRecOn generalizing s with
+  | ind m ih =>
+    cases hn : step .perChannel s .closeReturn with
+    | some s1 => exact ⟨s, Path.refl s, by simp [hn]⟩
+    | none =>
+      obtain ⟨l, s1, hl, hs, hlt⟩ := progress_step (inv_reach hr) hp hn
+      have hp1 : closePending s1 := by
+        have := pending_internal hl hs
+        simp only [closePending] at hp ⊢; omega
+      obtain ⟨s2, p, hret⟩ := ih (mu s1) (by omega) (Reach.step l hr hs) hp1 rfl
+      exact ⟨s2, Path.cons l hl hs p, hret⟩
+
+/-- Close's CAS lands after the first of three per-channel steps of a running Subscribe. -/
+def raceLabels : List Label :=
+  [.subCall 3, .subLock 0, .subChan, .closeCall, .closeCas, .subChan, .subChan, .subUnlock]
+
+def raceState : State := (runLabels .perChannel init raceLabels).getD init
+
+theorem race_run : runLabels .perChannel init raceLabels = some raceState := by decide
+
+example : Reach .perChannel raceState ∧ closePending raceState ∧
+    raceState.reg = 1 ∧ raceState.skipped = 2 ∧ raceState.wg = 1 ∧ raceState.inLoop = 1 ∧
+    raceState.closed = true ∧ raceState.lock = none :=
+  ⟨reach_of_run _ _ _ _ Reach.init race_run, by simp only [closePending]; decide,
+   by decide, by decide, by decide, by decide, by decide, by decide⟩
+
+/-- … and the same race runs to the return of `Close`. -/
+example : ∃ s, runLabels .perChannel init (raceLabels ++
+      [.closeChClose, .fwdExitClose, .fwdRemove, .closePass, .closeReturn]) = some s ∧
+    s.closeReturned = 1 ∧ s.wg = 0 :=
+  ⟨_, rfl, by decide, by decide⟩
+
+/-- The state after the same race in the variant with the hoisted `wg.Add(len(ch))`, the one
+forwarder that was started having finished and `Close` waiting in `wg.Wait()`. -/
+def hoistedLabels : List Label := raceLabels ++ [.closeChClose, .fwdExitClose, .fwdRemove, .closePass]
+
+def hoistedWitness : State := (runLabels .hoisted init hoistedLabels).getD init
+
+theorem hoisted_run : runLabels .hoisted init hoistedLabels = some hoistedWitness := by decide
+
+/-- `hoisted_add_blocks_close`: if `Subscribe` adds `len(ch)` to the WaitGroup up front while every
+per-channel step still drops its channel once `closed` is set, the race above leaves two units in
+the counter: no forwarder exists, nobody holds the lock, `Close` is in `wg.Wait()` — and in no
+state reachable from there, by any steps of anybody, can it return. -/
+theorem hoisted_add_blocks_close :
+    Reach .hoisted hoistedWitness ∧ closePending hoistedWitness ∧
+    hoistedWitness.lock = none ∧ hoistedWitness.inLoop = 0 ∧ hoistedWitness.wantLock = 0 ∧
+    hoistedWitness.wg = 2 ∧
+    ∀ s, Path .hoisted (fun _ => True) hoistedWitness s → step .hoisted s .closeReturn = none := by
+  refine ⟨reach_of_run _ _ _ _ Reach.init hoisted_run, by simp only [closePending]; decide, by decide,
+    by decide, by decide, by decide, ?_⟩
+  have key : ∀ s s', Path .hoisted (fun _ => True) s s' → HInv s → 0 < leak s →
+      step .hoisted s' .closeReturn = none := by
+    intro s s' p
+    induction p with
+    | refl s =>
+      intro hi hl
+      simp only [HInv, leak] at hi hl
+      have : s.wg ≠ 0 := by omega
+      simp [step, closeReturn, this]
+    | cons l _ hs _ ih =>
+      intro hi hl
+      obtain ⟨hi', hle⟩ := hoisted_step hi hs
+      exact ih hi' (by omega)
+  intro s p
+  exact key _ _ p (by simp only [HInv]; decide) (by simp only [leak]; decide)
+
+end Kit.Broadcaster.Wg
